@@ -89,28 +89,29 @@ func searchTail(e *lz.VerifEnc, depth int, score func(lz.VerifRangeEncoder) int)
 	return bestB, best
 }
 
-// end-state goals for searchTail
-func goalTailFF(st lz.VerifRangeEncoder) int { return 100 * tailFF(st.Low) }
-func goalInsideRun(st lz.VerifRangeEncoder) int { // whole stream ends inside a long run: run open before AND after the flush
+// end-state goals for searchTail: a trailing 0xFF byte of low comes first (it is what keeps a run
+// open across the whole flush), then the way the flush's first shiftLow meets an already pending run.
+func goalTailFF(st lz.VerifRangeEncoder) int { return 1000 * tailFF(st.Low) }
+func goalInsideRun(st lz.VerifRangeEncoder) int { // run open before the flush, extended by it, still open at its end
 	s := 0
 	if st.Low >= 0xFF00_0000 && st.Low < 0x1_0000_0000 {
-		s += 1000 + int(min64(st.PendingExtra, 200))
+		s += 500 + int(min64(st.PendingExtra, 200))
 	}
-	return s + 100*tailFF(st.Low)
+	return s + 1000*tailFF(st.Low)
 }
 func goalCarryAtFlush(st lz.VerifRangeEncoder) int { // the flush's first shiftLow carries through the run, and low ends in 0xFF
 	s := 0
 	if st.Low >= 0x1_0000_0000 && st.PendingExtra > 0 {
-		s += 1000 + int(min64(st.PendingExtra, 200))
+		s += 500 + int(min64(st.PendingExtra, 200))
 	}
-	return s + 100*tailFF(st.Low)
+	return s + 1000*tailFF(st.Low)
 }
 func goalEmitAtFlush(st lz.VerifRangeEncoder) int { // the flush's first shiftLow flushes the run as 0xFF bytes, low ends in 0xFF
 	s := 0
 	if st.Low < 0xFF00_0000 && st.PendingExtra > 0 {
-		s += 1000 + int(min64(st.PendingExtra, 200))
+		s += 500 + int(min64(st.PendingExtra, 200))
 	}
-	return s + 100*tailFF(st.Low)
+	return s + 1000*tailFF(st.Low)
 }
 
 func encOf(p []byte) *lz.VerifEnc {
@@ -314,12 +315,25 @@ func genRound2(r *hlib.Run, add func(string, []byte, bool, bool), addLight func(
 			// first grow a pending run with the greedy carry-chain search, leave it open
 			prefix, _ = carryChain(rng, prefix, 12+rng.Intn(40), 0, nil)
 		}
-		e := encOf(prefix)
-		tail, sc := searchTail(e, 2, g.f)
-		p := append(append([]byte(nil), prefix...), tail...)
+		var p []byte
+		sc := 0
+		for try := 0; try < 10; try++ {
+			// (probabilities that are still 1024 = 2^10 give thresholds whose low 10 bits are zero: the low
+			// byte of `low` cannot be steered through fresh contexts, so adapt some more and retry)
+			var tail []byte
+			tail, sc = searchTail(encOf(prefix), 2, g.f)
+			p = append(append([]byte(nil), prefix...), tail...)
+			if sc >= 1000 && (sc%1000 >= 500 || g.name == "low-ends-FF" || try >= 6) {
+				break
+			}
+			prefix = append(prefix, lowEntropy(rng, 24, 3)...)
+			if g.name != "low-ends-FF" {
+				prefix, _ = carryChain(rng, prefix, 8, 0, nil)
+			}
+		}
 		st := endState(p)
 		add("searched-end:"+g.name, p, true, i < 8)
-		r.Count(fmt.Sprintf("searched-end:%s:score>=1000:%v:tailFF=%d", g.name, sc >= 1000, tailFF(st.Low)))
+		r.Count(fmt.Sprintf("searched-end:%s:goal-reached=%v:low-ends-in-%dxFF", g.name, sc%1000 >= 500 || g.name == "low-ends-FF", tailFF(st.Low)))
 	}
 	if T {
 		// three trailing 0xFF bytes of low: a 2^24 search, a few times
@@ -331,7 +345,7 @@ func genRound2(r *hlib.Run, add func(string, []byte, bool, bool), addLight func(
 				c0 := base.Clone()
 				c0.PutByte(byte(b0))
 				tail, sc := searchTail(c0, 2, goalTailFF)
-				if sc >= 300 {
+				if sc >= 3000 {
 					p := append(append(append([]byte(nil), prefix...), byte(b0)), tail...)
 					add("searched-end:low-ends-FFFFFF", p, true, true)
 					found++
@@ -364,11 +378,12 @@ func genRound2(r *hlib.Run, add func(string, []byte, bool, bool), addLight func(
 	targets := []uint64{127, 128, 129, 16383, 16384, 16385, 16384 + 64, 16511, 16512, 0x7F * 128, 0x81 * 128}
 	txt := readData(r.Repo, "pi.txt")
 	txt2 := readData(r.Repo, "midsummer.txt")
+	le12 := lowEntropy(rng, 4000, 12)
 	for _, u := range targets {
 		if u >= 21 && u-20 <= 65536 {
 			add("uvarint:unpadded:raw-chunk", rng.Bytes(int(u-20)), true, false)
 		}
-		for j, base := range [][]byte{txt, txt2, le} {
+		for j, base := range [][]byte{txt, txt2, le12} {
 			if len(base) == 0 {
 				continue
 			}
@@ -380,10 +395,10 @@ func genRound2(r *hlib.Run, add func(string, []byte, bool, bool), addLight func(
 				}
 				return o
 			}
-			if p := payloadWithUnpadded(mk, u, 60000); p != nil {
+			if p := payloadWithUnpadded(mk, u, 65536); p != nil {
 				add(fmt.Sprintf("uvarint:unpadded:lzma-chunk:%d", j), p, true, false)
 			} else {
-				r.Count("uvarint:unpadded:search-failed")
+				r.Count("uvarint:unpadded:target-not-reached-within-one-chunk")
 			}
 		}
 	}
